@@ -268,3 +268,15 @@ Proof.
   destruct (no_internal_deadlock _ _ R Hd Ha) as (l & s' & P & H).
   pose proof (measure_step _ _ _ H P). lia.
 Qed.
+
+(* when nothing is left to do every call has its response: each Await can return *)
+Theorem all_calls_answered_at_quiescence p s c cr : reachable p s -> measure s = 0 ->
+  nth_error (s_calls s) c = Some cr -> exists r, c_resp cr = Some r /\ c_id cr = Some (rs_id r).
+Proof.
+  intros R Z E. pose proof (measure_zero_done _ _ R Z) as D.
+  assert (W : w_cpc (c_pc cr) = 0).
+  { apply (sum_zero_all (fun cr => w_cpc (c_pc cr)) (s_calls s) c cr); [unfold measure in Z; lia | assumption]. }
+  assert (P : returned_pc (c_pc cr) = true) by (destruct (c_pc cr); simpl in *; try discriminate; reflexivity).
+  pose proof (retired_when_done _ _ _ _ R D E (or_intror P)) as X.
+  destruct (c_resp cr) as [r|] eqn:Y; [|congruence]. exists r. split; [reflexivity|]. eapply own_id; eauto.
+Qed.
